@@ -5,7 +5,7 @@
    a spurious "child stopped" error) is the wrapper transition system of C05 instantiated with
    cache's parameters; [C04_need_eq_sent] is the fact that lets cache use it: Output() needs a
    child line exactly for the records whose line Input() forwarded. *)
-From PP Require Import Base.Lines Gen.Src_wrappers Wrap.CacheDefs Wrap.CacheProofs Wrap.WrapDefs Wrap.WrapProofs.
+From PP Require Import Base.Lines Gen.Src_wrappers Wrap.CacheDefs Wrap.CacheProofs Wrap.WrapDefs Wrap.WrapProofs Wrap.WrapPairing.
 
 (* for ALL inputs and key assignments: line i of the output is the child's answer to the first
    input line with the same key (one line per input line, in input order) *)
@@ -55,37 +55,54 @@ Proof.
 Qed.
 Print Assumptions C04_handoff_never_stuck_no_error.
 
+(* ... and under every interleaving the queue entries reach Output() in input order and entry i is served
+   with exactly the child's answers to the lines Input() forwarded for it (here: its own line iff it was a
+   first occurrence): the line counts per record are [map snd (feeder ls [])] by C04_need_eq_sent *)
+Theorem C04_entries_served_in_order_with_their_own_answers :
+  forall cin cout echo kpol ilen alen (ls : list (nat * line)) s,
+    let recs := map (fun b : bool => if b then 1 else 0) (map snd (feeder ls [])) in
+    let pr := mkP cache_order cache_poison_first cache_final_peek cin cout echo kpol in
+    reachable (wstep pr ilen alen) (w_init recs) s ->
+    rev (w_emitted s) = pairs 0 (firstn (length (w_emitted s)) recs) /\
+    (w_kpc s = KDone -> rev (w_emitted s) = pairs 0 recs).
+Proof.
+  intros cin cout echo kpol ilen alen ls s recs pr Hr. split.
+  - exact (emitted_prefix pr ilen alen recs s Hr).
+  - exact (emitted_complete pr ilen alen recs s Hr).
+Qed.
+Print Assumptions C04_entries_served_in_order_with_their_own_answers.
+
 (* ---- bytes: the full statement "exactly the output of running the child directly" ---- *)
-Definition cache_tool (ans : line -> line) (keyf : line -> nat) (cr : bool) (bs : list Z) : list (option line) :=
-  cache_run ans (map (fun l => (keyf l, l)) (records 10 cr bs)).
+(* in_cr / out_cr: does the reader strip a carriage return in front of the newline (input lines /
+   the child's answers); regenerated from the source: Gen.Src_wrappers.cache_in_strip_cr, cache_out_strip_cr *)
+Definition post_cr (cr : bool) (l : line) : line := if cr then strip_cr l else l.
+Definition cache_tool (ans : line -> line) (keyf : line -> nat) (in_cr out_cr : bool) (bs : list Z) : list (option line) :=
+  cache_run (fun l => post_cr out_cr (ans l)) (map (fun l => (keyf l, l)) (records 10 in_cr bs)).
 Definition child_directly (ans : line -> line) (bs : list Z) : list (option line) :=
   map (fun l => Some (ans l)) (records 10 false bs).
-Definition C04_transparent_bytes_statement : Prop :=
-  forall ans keyf bs, (forall l1 l2, keyf l1 = keyf l2 <-> l1 = l2) ->
-    cache_tool ans keyf true bs = child_directly ans bs.
 
-(* refuted on the current code: both readers strip a carriage return before the newline
-   (FilePiece line iterator / ReadLine default strip_cr = true): "a\r\n" through `cache cat` gives "a\n" *)
-Theorem C04_transparent_bytes_refuted :
-  exists ans bs, forall keyf, cache_tool ans keyf true bs <> child_directly ans bs.
-Proof.
-  exists (fun l => l), [97; 13; 10]%Z. intros keyf. vm_compute. discriminate.
-Qed.
-Print Assumptions C04_transparent_bytes_refuted.
-
-(* what holds: whenever the input has no CR immediately before a newline (the two readers agree) *)
-Theorem C04_transparent_bytes_partial :
+(* for all byte inputs, all children (line functions) and collision-free whole-line keys:
+   cache's output lines are exactly the child's own output lines *)
+Theorem C04_transparent_bytes :
   forall ans keyf bs, (forall l1 l2, keyf l1 = keyf l2 <-> l1 = l2) ->
-    records 10 true bs = records 10 false bs ->
-    cache_tool ans keyf true bs = child_directly ans bs.
+    cache_tool ans keyf cache_in_strip_cr cache_out_strip_cr bs = child_directly ans bs.
 Proof.
-  intros ans keyf bs Hk Hr. unfold cache_tool, child_directly. rewrite Hr.
+  intros ans keyf bs Hk. unfold cache_tool, child_directly, cache_in_strip_cr, cache_out_strip_cr, post_cr.
   rewrite cache_transparent.
   - rewrite map_map. reflexivity.
   - intros k1 l1 k2 l2 H1 H2. apply in_map_iff in H1. apply in_map_iff in H2.
     destruct H1 as (x1 & E1 & _). destruct H2 as (x2 & E2 & _). inversion E1; inversion E2; subst. apply Hk.
 Qed.
-Print Assumptions C04_transparent_bytes_partial.
+Print Assumptions C04_transparent_bytes.
+
+(* the defect that was in cache (finding F11, fixed): with the default readers (strip_cr = true on both
+   sides) "a\r\n" through `cache cat` gave "a\n" *)
+Theorem C04_strip_cr_refuted :
+  exists ans bs, forall keyf, cache_tool ans keyf true true bs <> child_directly ans bs.
+Proof.
+  exists (fun l => l), [97; 13; 10]%Z. intros keyf. vm_compute. discriminate.
+Qed.
+Print Assumptions C04_strip_cr_refuted.
 
 (* non-vacuity: a duplicate pattern with three keys; the child sees b, a, c once each *)
 Example C04_nonvacuous :
